@@ -1,7 +1,7 @@
 """C01 - datatype validation is sound, canonical and total"""
 from sa.core import rule, prop_info
 from sa.lib import *  # noqa: F401,F403
-from sa.lib import enclosing_tries, handler_covers, compare_ops, raised_names, origins, local_assigns, ReachingDefs
+from sa.lib import enclosing_tries, handler_covers, compare_ops, raised_names, origins, local_assigns, ReachingDefs, attr_stores
 from sa.model import AnchorMissing, kwarg, names_in
 from sa.typestate import forward, isinstance_facts
 from sa.cfg import CFG as _CFG
@@ -853,3 +853,26 @@ def limits_tested_by_comparison(ctx):
     """cross-cutting: limit properties (min, max, minlen ...) are never tested by their truth value in datatypes.py"""
     from sa.rules import common
     common.truthiness_on_value_slots(ctx, {'frappy.datatypes'})
+
+
+@rule('C01.R7d', min_instances=1)
+def struct_optional_none_vs_empty(ctx):
+    """StructOf.__init__: optional=None means 'all members optional', an (exported and rebuilt) empty list means 'none'"""
+    m = ctx.m
+    f = m.method(f'{DT}.StructOf', '__init__', inherited=False)
+    ctx.analysed(f)
+    stores = [(t, v, s) for t, v, s in attr_stores(f.node) if t.attr == 'optional' and dotted(t.value) == 'self']
+    if not stores:
+        raise AnchorMissing('store of self.optional not found in StructOf.__init__')
+    for t, v, s in stores:
+        truthy = any(isinstance(x, ast.BoolOp) and any(isinstance(y, ast.Name) and y.id == 'optional' for y in x.values) for x in ast.walk(v)) or \
+            any(isinstance(x, ast.IfExp) and src(x.test) in ('optional', 'not optional') for x in ast.walk(v))
+        ident = any(isinstance(x, ast.IfExp) and 'optional is' in src(x.test) for x in ast.walk(v)) or \
+            any(isinstance(a, ast.If) and 'optional is' in src(a.test) for a in ancestors(s))
+        if truthy:
+            ctx.bad(f'{f.qualname}:optional=None vs []', s, f'`{src(s)}` decides by the truth value of `optional`: an explicitly empty list (which '
+                    'export_datatype emits and get_datatype passes back) makes every member optional - structs lacking mandatory members validate', f)
+        elif ident:
+            ctx.ok(f'{f.qualname}:optional=None vs []', s, 'None is tested by identity', f)
+        else:
+            ctx.undecided(f'{f.qualname}:optional=None vs []', s, 'form not recognised', f)
